@@ -1,7 +1,12 @@
 /-
   Cycle detection (C05): mirror of `validators/cycle_detection.rs` (containment cycles through structs and
-  enums, E032), of the alias walk of `patchers/type_ref_patcher.rs::resolve_type_alias` (E019 / E033; the walk
-  itself is `walkAlias` of Model/Resolve.lean) and of `Interface::all_base_interfaces`.
+  enums, E032; the per-root set `types_depending_on_checked_type` and the skip rule of dd206d7; the interface
+  inheritance check `check_interface_for_inheritance_cycles` of 0830460; the order of the three gates of
+  `detect_cycles`), of the alias walk of `patchers/type_ref_patcher.rs::resolve_type_alias` (E019 / E033; the walk
+  itself is `walkAlias` of Model/Resolve.lean) and of `Interface::all_base_interfaces` (`collect` of 323593c).
+
+  The definitions the repairs replaced are kept under the names `dfsUnpruned` / `detectUnpruned` / `allBasesSpec`
+  ONLY as specifications to compare with (Props/C05: `prune_preserves_reports`, `allBases_eq_spec`).
 
   Containment graph: nodes = struct/enum definitions in AST order; each node a list of fields; a field's type a
   wrapper tree over leaves `node j | terminal`.  The detector works on the *edge function*
@@ -109,26 +114,70 @@ def report (root : Nat) (stack : List Entry) (st : DState) : DState :=
 
 def DState.tick (st : DState) : DState := { st with steps := st.steps + 1 }
 
+/-! ### which types depend on the checked type (`dependents` map + worklist of `detect_cycles`) -/
+
+/-- `dependents[t]`: the types that directly depend on `t` — one entry per (field, leaf) edge `c → t`, containers in
+    AST order (`for node in ast` … `dependents.entry(dependency).or_default().push(type_id)`) -/
+def dependents (E : EdgeFn) (n t : Nat) : List Nat :=
+  (List.range n).flatMap fun c => ((E c).filter fun e => e.2 == t).map fun _ => c
+
+/-- body of `for dependent in dependents.get(type_id)`: `if set.insert(dependent) { pending.push(dependent) }`;
+    state = (`pending` as a stack, head = top; the set) -/
+def depVisit (acc : List Nat × List Nat) (d : Nat) : List Nat × List Nat :=
+  if acc.2.contains d then acc else (d :: acc.1, d :: acc.2)
+
+/-- `while let Some(type_id) = pending.pop() { … }`; the fuel bounds the number of pops
+    (never exhausted with `n + 1`: `Lemmas/Cycles.depLoop_spec`) -/
+def depLoop (D : Nat → List Nat) : Nat → List Nat → List Nat → List Nat
+  | 0, _, set => set
+  | _ + 1, [], set => set
+  | fuel + 1, t :: pending, set =>
+    let r := (D t).foldl depVisit (pending, set)
+    depLoop D fuel r.1 r.2
+
+/-- `types_depending_on_candidate` for the checked type `root` -/
+def dependsOn (E : EdgeFn) (n root : Nat) : List Nat := depLoop (dependents E n) (n + 1) [root] []
+
+/-! ### the search -/
+
 /-- `check_for_cycles` of node `cur` with the current stack: every field, every struct/enum leaf of its type,
-    `push_to_stack_and_check` with its three cases -/
-def dfs (E : EdgeFn) (root : Nat) : Nat → List Entry → Nat → DState → DState
+    `push_to_stack_and_check` with its four cases in the Rust order: the candidate is the checked type ⇒ report;
+    the candidate does not depend on the checked type ⇒ skip (dd206d7); the candidate is on the stack ⇒ cut;
+    otherwise push and recurse. `deps` = `types_depending_on_checked_type`. -/
+def dfs (E : EdgeFn) (root : Nat) (deps : List Nat) : Nat → List Entry → Nat → DState → DState
   | 0, _, _, st => { st with exhausted := true }
   | fuel + 1, stack, cur, st =>
     (E cur).foldl (fun st e =>
       let st := st.tick
       if e.2 == root then report root (stack ++ [⟨e.2, cur, e.1⟩]) st          -- back at the type being checked
+      else if !deps.contains e.2 then st                                         -- cannot lead back to it: skip
       else if stack.any (fun x => x.target == e.2) then st                      -- on the stack: cut
-      else dfs E root fuel (stack ++ [⟨e.2, cur, e.1⟩]) e.2 st) st               -- recurse
+      else dfs E root deps fuel (stack ++ [⟨e.2, cur, e.1⟩]) e.2 st) st          -- recurse
 
-/-- `detect_cycles`: every struct/enum in AST order is the root of one search; fuel = number of nodes − stack length -/
+/-- `detect_cycles` (containment part): every struct/enum in AST order is the root of one search, with its own
+    `dependsOn` set; fuel = number of nodes − stack length -/
 def detectE (E : EdgeFn) (n : Nat) : DState :=
-  (List.range n).foldl (fun st r => dfs E r n [] r st) {}
+  (List.range n).foldl (fun st r => dfs E r (dependsOn E n r) n [] r st) {}
 
 def detectCycles (g : Graph) : List Report := (detectE (edges g) g.length).reports
 
 def steps (g : Graph) : Nat := (detectE (edges g) g.length).steps
 
-/-! ## the dense DAG family of D-05b -/
+/-! ### the detector before dd206d7 — SPECIFICATION ONLY (no skip rule: every simple path is walked) -/
+
+def dfsUnpruned (E : EdgeFn) (root : Nat) : Nat → List Entry → Nat → DState → DState
+  | 0, _, _, st => { st with exhausted := true }
+  | fuel + 1, stack, cur, st =>
+    (E cur).foldl (fun st e =>
+      let st := st.tick
+      if e.2 == root then report root (stack ++ [⟨e.2, cur, e.1⟩]) st
+      else if stack.any (fun x => x.target == e.2) then st
+      else dfsUnpruned E root fuel (stack ++ [⟨e.2, cur, e.1⟩]) e.2 st) st
+
+def detectUnpruned (E : EdgeFn) (n : Nat) : DState :=
+  (List.range n).foldl (fun st r => dfsUnpruned E r n [] r st) {}
+
+/-! ## graph families: the dense DAG of D-05b (fixed) and the complete digraph of D-05d (open) -/
 
 def denseNode (n i : Nat) : CNode :=
   { name := "S" ++ toString i, isEnum := false,
@@ -136,6 +185,12 @@ def denseNode (n i : Nat) : CNode :=
 
 /-- struct `i` has one field of every struct `j > i` (acyclic) -/
 def dense (n : Nat) : Graph := (List.range n).map (denseNode n)
+
+/-- struct `i` has one optional field of every struct `j ≠ i` (an erroneous program: everything is on a cycle) -/
+def complete (n : Nat) : Graph :=
+  (List.range n).map fun i =>
+    { name := "S" ++ toString i, isEnum := false,
+      fields := ((List.range n).filter (· != i)).map fun j => { name := "f" ++ toString j, ty := .opt (.node j) } }
 
 /-! ## independent predicates (what the property demands; not the detector) -/
 
@@ -174,6 +229,45 @@ def chainOk (E : EdgeFn) (root : Nat) : Nat → List Entry → Bool
 /-- bases of interface `i` (indices), in written order -/
 abbrev IGraph := List (List Nat)
 
+/-- `base_interfaces()` of interface `i`; references that point outside the graph are ignored (as in `edges`) -/
+def ibases (ig : IGraph) (i : Nat) : List Nat := (ig.getD i []).filter (· < ig.length)
+
+/-- the inheritance graph as an edge function (field index 0), so that `EReach` / `AcyclicE` apply to it -/
+def igEdges (ig : IGraph) : EdgeFn := fun i => (ibases ig i).map fun b => (0, b)
+
+/-! ### `Interface::all_base_interfaces` after 323593c: `collect` with a `seen` and an `expanded` set -/
+
+structure BState where
+  /-- `all_bases` -/
+  all : List Nat := []
+  /-- `seen_identifiers` -/
+  seen : List Nat := []
+  /-- `expanded_identifiers` -/
+  expanded : List Nat := []
+  /-- set when the recursion ran out of fuel (never: `Props/C05.allBases_total`) -/
+  exhausted : Bool := false
+  deriving Repr, Inhabited
+
+/-- `if seen_identifiers.insert(id) { all_bases.push(base) }` -/
+def BState.push (st : BState) (b : Nat) : BState :=
+  if st.seen.contains b then st else { st with seen := b :: st.seen, all := st.all ++ [b] }
+
+/-- `collect(interface, …)`: first every direct base is pushed (when new), then every direct base is expanded (when
+    not expanded before); the fuel bounds the nesting depth -/
+def collect (ig : IGraph) : Nat → Nat → BState → BState
+  | 0, _, st => { st with exhausted := true }
+  | fuel + 1, i, st =>
+    (ibases ig i).foldl (fun st b =>
+      if st.expanded.contains b then st
+      else collect ig fuel b { st with expanded := b :: st.expanded }) ((ibases ig i).foldl BState.push st)
+
+/-- `Interface::all_base_interfaces`; `none` = the recursion did not finish within `fuel` nested frames -/
+def allBases (ig : IGraph) (fuel i : Nat) : Option (List Nat) :=
+  let st := collect ig fuel i {}
+  if st.exhausted then none else some st.all
+
+/-! ### the definition before 323593c — SPECIFICATION ONLY: bases, then the bases of each base, first occurrences -/
+
 /-- `retain(|b| seen.insert(id))`: keep first occurrences -/
 def dedupKeep : List Nat → List Nat
   | [] => []
@@ -185,11 +279,67 @@ def joinBases (acc r : Option (List Nat)) : Option (List Nat) :=
   | some a, some r => some (a ++ r)
   | _, _ => none
 
-/-- `Interface::all_base_interfaces`; `none` = the recursion did not finish within `fuel` frames -/
-def allBases (ig : IGraph) : Nat → Nat → Option (List Nat)
+/-- `bases ++ flat_map(all_base_interfaces)`, then first occurrences; `none` = did not return within `fuel` frames
+    (every graph with a loop below `i`, whatever the fuel) -/
+def allBasesSpec (ig : IGraph) : Nat → Nat → Option (List Nat)
   | 0, _ => none
   | fuel + 1, i =>
-    ((ig.getD i []).foldl (fun acc b => joinBases acc (allBases ig fuel b)) (some (ig.getD i []))).map dedupKeep
+    ((ibases ig i).foldl (fun acc b => joinBases acc (allBasesSpec ig fuel b)) (some (ibases ig i))).map dedupKeep
+
+/-! ### `check_interface_for_inheritance_cycles` (0830460) -/
+
+structure FState where
+  /-- `seen` -/
+  seen : List Nat := []
+  /-- `path` -/
+  path : List Nat := []
+  /-- `find_path` returned `true` (every enclosing loop is left at once) -/
+  found : Bool := false
+  exhausted : Bool := false
+  deriving Repr, Inhabited
+
+/-- `find_path(current, target, path, seen)`: the loop over the bases of `cur`; the fuel bounds the nesting depth -/
+def findPath (ig : IGraph) (target : Nat) : Nat → Nat → FState → FState
+  | 0, _, st => { st with exhausted := true }
+  | fuel + 1, cur, st =>
+    (ibases ig cur).foldl (fun st b =>
+      if st.found then st                                                           -- `return true` happened
+      else if b == target then { st with path := st.path ++ [b], found := true }    -- `id == target`
+      else if st.seen.contains b then st                                           -- `seen.insert` is false
+      else
+        let st1 := findPath ig target fuel b { st with seen := b :: st.seen, path := st.path ++ [b] }
+        if st1.found then st1 else { st1 with path := st1.path.dropLast }) st        -- `path.pop()`
+
+def findPathFrom (ig : IGraph) (i : Nat) : FState := findPath ig i (ig.length + 1) i { path := [i] }
+
+/-- the inheritance chain reported for interface `i` (`some [i, …, i]`), or `none` when it is not reported -/
+def checkInterface (ig : IGraph) (i : Nat) : Option (List Nat) :=
+  let st := findPathFrom ig i
+  if st.found then some st.path else none
+
+/-- the E032 diagnostics of the interface gate: (interface, chain) in AST order -/
+def ifaceLoopErrors (ig : IGraph) : List (Nat × List Nat) :=
+  (List.range ig.length).filterMap fun i => (checkInterface ig i).map fun p => (i, p)
+
+/-! ## the three gates of `detect_cycles`, in order -/
+
+structure GateOutcome where
+  /-- E019 of the alias gate (aliases that contain themselves through an anonymous type) -/
+  aliasErrors : List String := []
+  /-- E032 of the interface gate -/
+  ifaceErrors : List (Nat × List Nat) := []
+  /-- E032 of the containment detector -/
+  reports : List Report := []
+  deriving Repr, Inhabited
+
+def GateOutcome.rejected (o : GateOutcome) : Bool := !o.aliasErrors.isEmpty || !o.ifaceErrors.isEmpty || !o.reports.isEmpty
+
+/-- `detect_cycles`: the alias gate returns when it reported anything (`if diagnostics.has_errors() { return; }`: the
+    validators run only on programs without earlier errors); the interface gate does NOT return, the containment
+    detector runs in any case after it -/
+def cycleGate (anonAliases : List String) (ig : IGraph) (g : Graph) : GateOutcome :=
+  if !anonAliases.isEmpty then { aliasErrors := anonAliases }
+  else { ifaceErrors := ifaceLoopErrors ig, reports := detectCycles g }
 
 /-! ## from the abstract syntax -/
 
@@ -359,7 +509,8 @@ def anonLoop (p : Program) : Bool :=
   (List.range n).any fun u => (succ.getD u []).any fun vb => vb.2 && (vb.1 == u || (reachList E n vb.1).contains u)
 
 
-/-- the alias gate added to `detect_cycles` (repair of D-05c): an alias is reported with E019 when, descending from its
+/-- the alias gate added to `detect_cycles` (repair of D-05c), DECLARATIVELY (closure over the alias graph; used by the
+    driver as an oracle for `aliasGateErrors`, which mirrors the code): an alias is reported with E019 when, descending from its
     underlying type through anonymous types (aliases being transparent), an anonymous type is met twice on the current
     path — i.e. when an alias lying on a loop is reachable from it (the alias itself included). In a program the patcher
     accepted, every alias loop runs through an anonymous type. -/
@@ -372,5 +523,124 @@ def anonLoopAliases (p : Program) : List String :=
   let n := ads.length
   let cyc := onCycle E n
   ((List.range n).filter fun a => cyc.contains a || (reachList E n a).any cyc.contains).map fun a => keys.getD a ""
+
+/-! ## the alias gate: `revisits_anonymous_type` (f7e7e5f), first loop of `detect_cycles`
+
+  The graph it walks: one node per anonymous type (sequence, dictionary, result) written in the underlying type of an
+  alias; the children of a node are the anonymous types its element / key, value / success, failure references are bound
+  to (a written anonymous type, or — through a chain of aliases — the anonymous underlying type of an alias); structs,
+  enums, primitives and custom types are leaves. The descent keeps the CURRENT PATH (`path.push` … `path.pop`), not a set
+  of everything visited: a node met twice on different branches (a diamond, `Result<Names, Names>`) is not a revisit. -/
+
+/-- `revisits_anonymous_type(node, path)` on the graph of anonymous types (`IGraph`: children of node `x`);
+    the fuel bounds the nesting depth (never exhausted with `#nodes + 1`: `Props/C05.alias_gate_reports_iff`) -/
+def revisits (ag : IGraph) : Nat → Nat → List Nat → Bool
+  | 0, _, _ => false
+  | fuel + 1, x, path =>
+    if path.contains x then true                                                     -- `path.contains(&node)`
+    else (ibases ag x).any fun c => revisits ag fuel c (path ++ [x])                  -- push, `any` over the children, pop
+
+/-- the aliases (indices) reported by the alias gate; `starts[a]` = the anonymous type alias `a`'s underlying reference
+    is bound to, if it is one -/
+def aliasGate (ag : IGraph) (starts : List (Option Nat)) : List Nat :=
+  (List.range starts.length).filter fun a =>
+    match starts.getD a none with
+    | some x => revisits ag (ag.length + 1) x []
+    | none => false
+
+/-- a type reference inside an anonymous type, before binding: a written anonymous type (global index), a name, or a
+    primitive -/
+inductive AChild where
+  | node (k : Nat)
+  | named (id : String)
+  | leaf
+  deriving Repr, DecidableEq, Inhabited
+
+structure ANode where
+  /-- module scope the expression was written in -/
+  scope : String
+  children : List AChild
+  deriving Repr, Inhabited
+
+mutual
+/-- number the anonymous types written below a reference in pre-order, starting at `next` -/
+def allocT (scope : String) : TRef → Nat → AChild × List ANode
+  | .mk _ ty _, next => allocE scope ty next
+def allocE (scope : String) : TyExpr → Nat → AChild × List ANode
+  | .prim _, _ => (.leaf, [])
+  | .named id, _ => (.named id, [])
+  | .seq e, next =>
+    let r := allocT scope e (next + 1)
+    (.node next, ⟨scope, [r.1]⟩ :: r.2)
+  | .dict k v, next =>
+    let rk := allocT scope k (next + 1)
+    let rv := allocT scope v (next + 1 + rk.2.length)
+    (.node next, ⟨scope, [rk.1, rv.1]⟩ :: (rk.2 ++ rv.2))
+  | .result su f, next =>
+    let rs := allocT scope su (next + 1)
+    let rf := allocT scope f (next + 1 + rs.2.length)
+    (.node next, ⟨scope, [rs.1, rf.1]⟩ :: (rs.2 ++ rf.2))
+end
+
+/-- all anonymous types written in alias definitions, and for every alias (AST order) its scope and what its underlying
+    reference is -/
+def anonAlloc (p : Program) : List ANode × List (String × AChild) :=
+  (aliasDefs p).foldl (fun acc a =>
+    let r := allocT a.2.1 a.2.2 acc.1.length
+    (acc.1 ++ r.2, acc.2 ++ [(a.2.1, r.1)])) ([], [])
+
+/-- what a reference is bound to after patching: named references follow the alias chain to its end -/
+def bindChild (t : Table) (keys : List String) (starts : List (String × AChild)) : Nat → String → AChild → Option Nat
+  | _, _, .node k => some k
+  | _, _, .leaf => none
+  | 0, _, .named _ => none
+  | fuel + 1, scope, .named id =>
+    match aliasIndexOf t keys id scope with
+    | some j => match starts.getD j ("", .leaf) with | (sj, cj) => bindChild t keys starts fuel sj cj
+    | none => none
+
+/-- the graph of anonymous types of a program and the start node of every alias -/
+def anonGraph (p : Program) : IGraph × List (Option Nat) :=
+  let t := buildTable p
+  let keys := (aliasDefs p).map (·.1)
+  let (nodes, starts) := anonAlloc p
+  let fuel := starts.length + 1
+  (nodes.map fun nd => nd.children.filterMap (bindChild t keys starts fuel nd.scope),
+   starts.map fun sc => bindChild t keys starts fuel sc.1 sc.2)
+
+/-- the E019 diagnostics of the alias gate, by `revisits_anonymous_type` -/
+def aliasGateErrors (p : Program) : List String :=
+  let keys := (aliasDefs p).map (·.1)
+  let (ag, starts) := anonGraph p
+  (aliasGate ag starts).map fun a => keys.getD a ""
+
+/-! ## the gate on a program -/
+
+/-- interface definitions of a program in AST order: (key, module scope, written bases) -/
+def ifaceDefs (p : Program) : List (String × String × List TRef) :=
+  p.flatMap fun f =>
+    let ms := match f.module with | some m => m.path | none => ""
+    f.defs.filterMap fun d =>
+      match d with
+      | .iface _ _ name bases _ => some (scopedId name ms, ms, bases)
+      | _ => none
+
+/-- the inheritance graph of a program (bases bound with Model/Resolve.lean; aliases are looked through) -/
+def igraphOfProgram (p : Program) : IGraph :=
+  let t := buildTable p
+  let ids := ifaceDefs p
+  let keys := ids.map (·.1)
+  ids.map fun (_, ms, bases) =>
+    bases.filterMap fun b =>
+      match b.ty with
+      | .named id =>
+        match resolveNamed t .interface id ms with
+        | .ok (.node n, _) => if keys.contains n.key then some (keys.idxOf n.key) else none
+        | _ => none
+      | _ => none
+
+/-- `detect_cycles` on a program the patchers accepted -/
+def gateOfProgram (p : Program) : GateOutcome :=
+  cycleGate (aliasGateErrors p) (igraphOfProgram p) (graphOfProgram p)
 
 end Slicec.Cyc
